@@ -1,5 +1,6 @@
 import CpProofs.Tls2
 import CpProofs.Reader
+import CpProofs.Variant
 /-
   C04 — incremental reads guided by the missing-byte count reassemble the stream.
   (a) every proper prefix of a composed record is rejected with not-enough-data and a missing
@@ -14,6 +15,22 @@ theorem tlsRecord_prefixReject : PrefixReject recordCodec recordWf := record_pre
 /-- every TLS handshake message class: decided by the four-byte header alone -/
 theorem tlsHandshake_prefixReject {α : Type} {typ : Nat} (hm : typ ∈ Gen.TlsHandshakeType.memberCodes)
     (inner : Codec α) : PrefixReject (hsFramed typ inner) (fun _ => True) := hs_prefixReject hm inner
+
+/-- `TlsHandshakeMessageVariant` (what a client feeds with the concatenated fragments of handshake
+records): every proper prefix of a composed message of ANY class in the variant list is rejected with
+not-enough-data, 1 ≤ missing ≤ really missing — also for classes whose payload is not modelled. -/
+theorem tlsHandshakeVariant_prefixReject {α : Type} {t : Nat} (inner : Codec α) (v : α) (b : Bytes)
+    (ht : t ∈ Gen.TlsHandshakeType.memberCodes) (hin : ∃ e ∈ Gen.handshakeVariants, e.2 = t)
+    (hc : (hsFramed t inner).compose v = .ok b) (j : Nat) (hj : j < b.length) :
+    ∃ m : Nat, parseHandshakeVariant (b.take j) = .error (.notEnough m) ∧ 1 ≤ m ∧ m ≤ b.length - j :=
+  variant_prefixReject inner v b ht hin hc j hj
+
+/-- … and on a complete message the variant is exactly the parser of the class whose type byte
+leads the message -/
+theorem tlsHandshakeVariant_dispatch (c : HsClass) (rest : Bytes) (hlen : 3 ≤ rest.length)
+    (hok : parseHsClass c (encNat .network 1 c.typ ++ rest) ≠ .error .invalidType) :
+    parseHandshakeVariant (encNat .network 1 c.typ ++ rest) = parseHsClass c (encNat .network 1 c.typ ++ rest) :=
+  variant_eq_class c rest hlen hok
 
 theorem tlsRecord_nonempty : ∀ v b, recordWf v → recordCodec.compose v = .ok b → 0 < b.length := by
   intro v b hv hb
